@@ -212,7 +212,7 @@ func (s *Sys) Ops() []string {
 	}
 	for _, t := range s.tr {
 		for _, f := range s.cfg.AckForms {
-			if t.AckBytes == nil && (f == "g1" || f == "g2" || f == "dup2" || f == "old") {
+			if t.AckBytes == nil && (f == "g1" || f == "g2" || f == "dup2" || f == "old" || f == "altpkt") {
 				continue // nothing to relay yet
 			}
 			out = append(out, fmt.Sprintf("ack %s %s", t.ID, f))
@@ -758,7 +758,11 @@ func (s *Sys) ackMsg(t *transfer, form string) (sdk.Msg, world.Account, *world.C
 		ack, _ = a.ABIPack()
 	}
 	proof, ph := s.proofFor(src, dst, key, h)
-	return packettypes.NewMsgAcknowledgement(t.Bytes, ack, proof, ph, signer.Acc), signer, src
+	pkt := t.Bytes
+	if form == "altpkt" {
+		pkt = altered(p) // same triple, different body; genuine acknowledgement and proof
+	}
+	return packettypes.NewMsgAcknowledgement(pkt, ack, proof, ph, signer.Acc), signer, src
 }
 
 // tokenOf returns the token a transfer moves on its source chain (zero address = native).
